@@ -2121,11 +2121,12 @@ func (interp *Interpreter) cfg(root *node, sc *scope, importPath, pkgName string
 					if isStruct(n.typ) {
 						// If a method of the same name exists, use it if it is shallower than the struct field.
 						// if method's depth is the same as field's, this is an error.
+						// (The depth of a field is the length of its index path minus one.)
 						d := n.typ.methodDepth(n.child[1].ident)
-						if d >= 0 && d < len(ti) {
+						if d >= 0 && d < len(ti)-1 {
 							goto tryMethods
 						}
-						if d == len(ti) {
+						if d == len(ti)-1 {
 							err = n.cfgErrorf("ambiguous selector: %s", n.child[1].ident)
 							break
 						}
@@ -2160,11 +2161,12 @@ func (interp *Interpreter) cfg(root *node, sc *scope, importPath, pkgName string
 					if isStruct(n.typ) {
 						// If a method of the same name exists, use it if it is shallower than the struct field.
 						// if method's depth is the same as field's, this is an error.
+						// (The depth of a field is the length of its index path minus one.)
 						d := n.typ.methodDepth(n.child[1].ident)
-						if d >= 0 && d < len(lind) {
+						if d >= 0 && d < len(lind)-1 {
 							goto tryMethods
 						}
-						if d == len(lind) {
+						if d == len(lind)-1 {
 							err = n.cfgErrorf("ambiguous selector: %s", n.child[1].ident)
 							break
 						}
